@@ -34,6 +34,7 @@ structure Cur where
 structure FState where
   cur : Cur
   backup : Option Cur
+  lv : Bool := false     -- `flow.live`: set when a replay of the flow starts, cleared when a replay of it ends
   deriving DecidableEq, Repr
 
 /-- one queued occurrence of a flow -/
@@ -90,15 +91,18 @@ def isInflight (s : St) (i : Nat) : Bool :=
   | some (e, _) => e.idx == i
   | none => false
 
-/-- the flow is being replayed by a background task (`flow.live` is set while a replay runs) -/
-def inBg (s : St) (i : Nat) : Bool := s.bg.any (fun p => p.1.idx == i)
+/-- `flow.live` as the HTTP layer left it: true from the start of a replay of the flow until a replay of it ends -/
+def isLive (s : St) (i : Nat) : Bool :=
+  match s.fs[i]? with
+  | some f => f.lv
+  | none => false
 
 /-- ClientPlayback.check: none = replayable, some n = the n-th refusal -/
 def check (s : St) (i : Nat) : Option Nat :=
   match s.attrs[i]? with
   | none => some 0
   | some a =>
-    if a.live || isInflight s i || inBg s i then some 1
+    if a.live || isLive s i || isInflight s i then some 1
     else if a.intercepted then some 2
     else if !a.isHttp then some 6
     else if !a.hasReq then some 3
@@ -113,7 +117,7 @@ def prepare (s : St) (i : Nat) : St :=
   | some f =>
     let b := match f.backup with | none => f.cur | some b => b
     { s with
-      fs := s.fs.set i { cur := { f.cur with resp := false, err := false, marked := true }, backup := some b },
+      fs := s.fs.set i { f with cur := { f.cur with resp := false, err := false, marked := true }, backup := some b },
       queue := s.queue ++ [{ ticket := s.next, idx := i, fresh := f.backup.isNone, pre := f.cur }],
       next := s.next + 1 }
 
@@ -125,7 +129,7 @@ def startReplay (s : St) (idxs : List Nat) : St := idxs.foldl startOne s
 def revert (fs : List FState) (i : Nat) : List FState :=
   match fs[i]? with
   | some f => match f.backup with
-    | some b => fs.set i { cur := b, backup := none }
+    | some b => fs.set i { f with cur := b, backup := none }
     | none => fs
   | none => fs
 
@@ -138,17 +142,27 @@ def editFlow (fs : List FState) (i : Nat) : List FState :=
   match fs[i]? with
   | some f =>
     let b := match f.backup with | none => f.cur | some b => b
-    fs.set i { cur := { f.cur with ver := f.cur.ver + 1 }, backup := some b }
+    fs.set i { f with cur := { f.cur with ver := f.cur.ver + 1 }, backup := some b }
   | none => fs
 
 def finishFlow (fs : List FState) (i : Nat) (response : Bool) : List FState :=
   match fs[i]? with
-  | some f => fs.set i { f with cur := if response then { f.cur with resp := true } else { f.cur with err := true } }
+  | some f => fs.set i { f with cur := (if response then { f.cur with resp := true } else { f.cur with err := true }), lv := false }
   | none => fs
 
 /-- a still-queued flow is also the one in flight: `revert()` then rewrites the state of the running replay
     (and raises on its open server connection) — finding F-C53b; outside the modelled domain -/
-def stopBlocked (s : St) : Bool := s.queue.any (fun e => isInflight s e.idx || inBg s e.idx)
+def stopBlocked (s : St) : Bool := s.queue.any (fun e => isInflight s e.idx || isLive s e.idx)
+
+/-- the HTTP layer marks the flow live when its replay starts -/
+def markLive (fs : List FState) (i : Nat) : List FState :=
+  match fs[i]? with
+  | some f => fs.set i { f with lv := true }
+  | none => fs
+
+/-- the request of background replay `t` has been written -/
+def markSent (t : Nat) (p : Entry × Phase) : Entry × Phase :=
+  if p.1.ticket == t && p.2 == .taken then (p.1, .sent) else p
 
 def step (s : St) : Op → Option St
   | .start idxs => some (startReplay s idxs)
@@ -159,9 +173,10 @@ def step (s : St) : Op → Option St
       -- `if ctx.options.client_replay_concurrency == -1` is evaluated here, after the flow has been dequeued
       if s.seq then
         some { s with inflight := some (e, .taken), queue := rest, log := .start e.ticket :: s.log,
-                      glog := .gstart e.ticket true :: s.glog }
+                      glog := .gstart e.ticket true :: s.glog, fs := markLive s.fs e.idx }
       else
-        some { s with queue := rest, bg := s.bg ++ [(e, .taken)], glog := .gstart e.ticket false :: s.glog }
+        some { s with queue := rest, bg := s.bg ++ [(e, .taken)], glog := .gstart e.ticket false :: s.glog,
+                      fs := markLive s.fs e.idx }
     | _, _ => none
   | .send =>
     match s.inflight with
@@ -176,7 +191,7 @@ def step (s : St) : Op → Option St
   | .setopt b => some { s with seq := b }
   | .bsend t =>
     if s.bg.any (fun p => p.1.ticket == t && p.2 == .taken) then
-      some { s with bg := s.bg.map (fun p => if p.1.ticket == t && p.2 == .taken then (p.1, .sent) else p) }
+      some { s with bg := s.bg.map (markSent t) }
     else none
   | .bfinish t r =>
     match s.bg.find? (fun p => p.1.ticket == t) with
